@@ -509,6 +509,54 @@ def run(ctx):
                     r.fail(f, c, norm(c)[:60] + " without len > 1", "%s evaluates `%s` where the sequence may hold a single element: max(5) raises TypeError - a choice question with one choice fails before it reads anything" % (f.short, norm(c)[:40]))
     if n12 == 0:
         r.vacuous_ok = True
+    # ---------------------------------------------------------------- R13
+    r = ctx.rule("C18-R13", "SIBLING", "'on a non-interactive input ... without reading or prompting' holds for a section of that I/O too: every section() of the I/O classes hands the "
+                 "new I/O the parent's Input object itself (which carries the interactive flag), not a new Input over the same stream", reference=2)
+    io_base = ctx.cls("clikit.api.io.io.IO")
+    n13 = 0
+    for c in sorted(p.subclasses(io_base), key=lambda k: k.qualname):
+        m = c.methods.get("section")
+        if m is None:
+            continue
+        n13 += 1
+        whole = [a for a in walk_no_nested(m.node) if isinstance(a, ast.Attribute) and a.attr in ("_input", "input") and isinstance(a.value, ast.Name) and a.value.id == "self"
+                 and isinstance(a.ctx, ast.Load) and not isinstance(getattr(a, "_parent", None), ast.Attribute)]
+        if whole:
+            r.ok("%s.section: the parent's Input object is handed on" % c.name)
+        else:
+            r.fail(m, m.node, "%s.section builds its own Input" % c.name, "%s.section does not pass its Input object on to the section: the section's Input is a new one - interactive by default - so a question asked on a "
+                   "section of a non-interactive I/O prompts and reads instead of taking its default" % c.name)
+    ctx.require(n13 >= 1, "no section() found in the I/O classes")
+
+    # ---------------------------------------------------------------- R14
+    r = ctx.rule("C18-R14", "ORDER", "'an invalid line costs one attempt': lines fed to a string input are read in the order they were appended - append() remembers the read position "
+                 "BEFORE it moves to the end to write, and goes back to it afterwards", reference=1)
+    sis = ctx.cls("clikit.io.input_stream.string_input_stream.StringInputStream")
+    ap = sis.methods.get("append")
+    if ap is None:
+        r.vacuous_ok = True
+    else:
+        acfg = ctx.cfg(ap)
+        seeks = [c for c in q.calls(ap) if isinstance(c.func, ast.Attribute) and c.func.attr == "seek"]
+        restore = [c for c in seeks if len(c.args) == 1 and isinstance(c.args[0], ast.Name)]
+        moves = [c for c in seeks if c not in restore]
+        if not restore or not moves:
+            r.vacuous_ok = True
+            r.note("append() no longer saves and restores the position")
+        for rs_ in restore:
+            var = rs_.args[0].id
+            defs = acfg.writes(lambda t: t == var)
+            mv_ids = [n.id for c in moves for n in acfg.nodes_of(c)]
+            late = [d for d in defs if any(d.id in acfg.reach_strict(mv) for mv in mv_ids)]
+            if late:
+                r.fail(ap, late[0].ast, "position saved after the move", "%s takes `%s` after it has moved to the end of the buffer: going back to it leaves the reader at the start of the text just appended - "
+                       "lines that were still unread are skipped silently (an invalid line costs no attempt, a pending answer is overtaken)" % (ap.short, norm(late[0].ast)))
+            else:
+                r.ok("%s: `%s` is taken before the move to the end" % (ap.short, var))
+
+    ctx.borrow("c09", "C09-R18", "C18-R15", "'on a non-interactive input': -n makes the I/O non-interactive whichever other switches are on the line - in create_io no effect of one switch "
+               "depends on another switch being absent (same rule as C09-R18)")
+
     return ctx.results
 
 
